@@ -400,12 +400,14 @@ func execute(h *run.H, tr *hist.Trace, draw func(w *hist.World) ([]hist.Step, []
 	return nil, st
 }
 
-var profileWheel = []string{"governance", "governance", "governance", "governance", "eth", "eth", "eth", "staking", "staking", "staking", "olvm", "olvm", "mixed", "mixed", "delegation", "rewards", "evidence", "ons"}
+var profileWheel = []string{"governance", "governance", "governance", "governance", "eth", "eth", "eth", "staking", "staking", "staking", "olvm", "olvm", "mixed", "mixed", "delegation", "rewards", "evidence", "ons", "bid", "bid"}
 
 var targeted = []func(g *hist.Gen) txgen.Tx{
 	(*hist.Gen).ProposalFinalize, (*hist.Gen).ProposalFinalize, (*hist.Gen).ExpireVotes, (*hist.Gen).ExpireVotes,
 	(*hist.Gen).ReportFinality, (*hist.Gen).ReportFinality, (*hist.Gen).ProposalVote, (*hist.Gen).ProposalVote,
 	(*hist.Gen).Stake, (*hist.Gen).Unstake, (*hist.Gen).OLVM, (*hist.Gen).ProposalFund, (*hist.Gen).Undelegate, (*hist.Gen).WithdrawStake,
+	// bid transactions that close a conversation (they re-aim the bid stores shared with the block hooks)
+	(*hist.Gen).BidCancel, (*hist.Gen).BidOwnerDecision, (*hist.Gen).BidBidderDecision,
 }
 
 // drawCheck draws one transaction to be checked at boundary `at` (k = number of the block's
@@ -444,7 +446,7 @@ func govOpinion(i int) governance.VoteOpinion { return governance.VoteOpinion(i)
 func TestC07(t *testing.T) {
 	h := run.Start(t, "C07")
 	defer h.Finish()
-	h.SetRule("history x CheckTx schedule on a twin pair: one replica gets 0-3 CheckTx calls at every ABCI boundary (before/after BeginBlock, after every DeliverTx, after EndBlock, after Commit) drawn from the block's own future transactions, fresh generator transactions, invalid bytes and state-changing kinds (PROPOSAL_FINALIZE, EXPIRE_VOTES, ETH_REPORT_FINALITY_MINT, PROPOSAL_VOTE, STAKE/UNSTAKE, OLVM); the twin gets none; non-trivial = at least one injected CheckTx was accepted (code 0) and wrote to the check state (judged from its response: a fee was charged, i.e. GasUsed > 0, or the free public kinds returned the event of their writing branch) at a boundary that is directly followed by a block hook (after Commit / before BeginBlock, or after the last DeliverTx before EndBlock); distinct by trace hash")
+	h.SetRule("history x CheckTx schedule on a twin pair: one replica gets 0-3 CheckTx calls at every ABCI boundary (before/after BeginBlock, after every DeliverTx, after EndBlock, after Commit) drawn from the block's own future transactions, fresh generator transactions, invalid bytes and state-changing kinds (PROPOSAL_FINALIZE, EXPIRE_VOTES, ETH_REPORT_FINALITY_MINT, PROPOSAL_VOTE, STAKE/UNSTAKE, OLVM, BID_CANCEL and the two bid decisions); the twin gets none; non-trivial = at least one injected CheckTx was accepted (code 0) and wrote to the check state (judged from its response: a fee was charged, i.e. GasUsed > 0, or the free public kinds returned the event of their writing branch) at a boundary that is directly followed by a block hook (after Commit / before BeginBlock, or after the last DeliverTx before EndBlock); distinct by trace hash")
 	maxBlocks := h.Scale(22, 40)
 	rapid.Check(t, func(rt *rapid.T) {
 		p := hist.GenParams(rt, fmt.Sprint(h.Seed))
